@@ -353,6 +353,20 @@ class System:
         self.temp2 = rng.choice([25.0, 15.0, 50.0])
         self.water2 = rng.choice([1.0, 0.5, 2.0])
         self.fracs = [round(rng.uniform(0.1, 0.9), 3), round(rng.uniform(0.1, 0.9), 3)]
+        if kind == "mix":
+            # ordinary analyses: not charge balanced (no `charge`), different water masses, fractions that do not sum to 1
+            self.water = rng.choice([1.0, 0.4, 2.5, 1.0])
+            self.water2 = rng.choice([1.0, 0.4, 2.5, 0.5, 2.0])
+            self.elems3 = pick_elems(rng, 2, 4, allow_alk=False)
+            self.amounts3 = gen_amounts(rng, self.elems3)
+            self.ph3 = round(rng.uniform(5.5, 8.8), 2)
+            self.water3 = rng.choice([1.0, 0.4, 2.5, 3.0])
+            self.fracs = [round(rng.uniform(0.1, 1.6), 3), round(rng.uniform(0.1, 1.6), 3), round(rng.uniform(0.1, 1.6), 3)]
+            if fam == "imbalanced" or rng.random() < 0.5:
+                # a strongly imbalanced analysis (an anion or a cation not reported)
+                drop = [e for e in self.elems if e in (("Cl", "S(6)", "N(5)") if rng.random() < 0.5 else ("Na", "Ca", "Mg", "K"))]
+                for e in drop[:1]:
+                    self.amounts[e] = self.amounts[e] * 1e-3
         p = {}
         if kind == "batch":
             p["phases"] = rng.sample([("Calcite", 0.0), ("Gypsum", 0.0), ("CO2(g)", round(rng.uniform(-3.5, -1.5), 2)),
@@ -424,10 +438,37 @@ class System:
                 rng_perm.shuffle(o2)
             blocks.append(solution_block(db, n2, self.ph2, self.temp2, self.water2 * k, self.amounts2, ex2, "mol/kgw", o2))
             mm = v.get("mixmode", "plain")
-            a, b = self.fracs
+            fs = v.get("fscale", 1.0)
+            a, b, c3 = [f * fs for f in self.fracs]
+            if mm in ("direct3", "nest12_3", "nest23_1"):
+                # three solutions at one temperature (a nested mix re-weighs temperature by the water mass after reaction,
+                # which is not an exact restatement); SAVE between the nested steps
+                n3, ns = ren.get(3, 3), ren.get("save", 10)
+                o3 = list(self.elems3)
+                sols = [solution_block(db, n1, self.ph, self.temp, self.water * k, self.amounts, exprs, default_spell, order),
+                        solution_block(db, n2, self.ph2, self.temp, self.water2 * k, self.amounts2, ex2, "mol/kgw", o2),
+                        solution_block(db, n3, self.ph3, self.temp, self.water3 * k, self.amounts3, plain_exprs(self.elems3), "mol/kgw", o3)]
+                eo = list(self.elems) + [e for e in self.elems2 + self.elems3 if e not in self.elems]
+                eo = list(dict.fromkeys(eo))
+                obs = observables(eo, [])
+                text = punch_block(obs) + "".join(sols) + "END\n"
+                if mm == "direct3":
+                    text += f"MIX {nmix}\n {n1} {a!r}\n {n2} {b!r}\n {n3} {c3!r}\nEND\n"
+                elif mm == "nest12_3":
+                    text += (f"MIX {nmix}\n {n1} {a!r}\n {n2} {b!r}\nSAVE solution {ns}\nEND\n"
+                             f"MIX {nmix}\n {ns} 1.0\n {n3} {c3!r}\nEND\n")
+                else:
+                    text += (f"MIX {nmix}\n {n3} {c3!r}\n {n2} {b!r}\nSAVE solution {ns}\nEND\n"
+                             f"MIX {nmix}\n {n1} {a!r}\n {ns} 1.0\nEND\n")
+                return text, obs
             ml = [f"MIX {nmix}"]
             if mm == "plain":
                 ml += [f" {n1} {a!r}", f" {n2} {b!r}"]
+            elif mm == "single":          # a solution mixed with itself only: any amount of it is the same solution
+                ml += [f" {n1} {a!r}"]
+            elif mm == "singlesplit":     # … also split over two lines
+                a1 = round(a * 0.375, 6)
+                ml += [f" {n1} {a1!r}", f" {n1} {a - a1!r}"]
             elif mm == "swap":
                 ml += [f" {n2} {b!r}", f" {n1} {a!r}"]
             elif mm == "selfline":        # the same solution on two lines of the MIX block
